@@ -561,6 +561,8 @@ def run_path(fn: Callable, params: dict, ctx: Ctx):
     except RecursionError as e:
         return "error", "RecursionError %s" % e
     except Exception as e:  # an exception escaping the harness = the harness did not expect it
+        if type(e).__module__.split(".")[0] in ("z3", "ctypes"):
+            return "error", "solver API error: %s: %s\n%s" % (type(e).__name__, e, "".join(traceback.format_tb(e.__traceback__)[-8:]))
         tb = traceback.extract_tb(e.__traceback__)
         site = ""
         for fr in reversed(tb):
@@ -579,6 +581,65 @@ def run_path(fn: Callable, params: dict, ctx: Ctx):
         _CUR = prev
 
 
+def _run_path_timed(fn, params, ctx, timeout_s):
+    """run_path under a wall-clock cap (a path can loop forever on concrete state)."""
+    import signal
+    import threading
+
+    if threading.current_thread() is not threading.main_thread() or not timeout_s:
+        return run_path(fn, params, ctx)
+
+    def on_alarm(signum, frame):
+        raise PathCut("path-timeout")
+
+    old = signal.signal(signal.SIGALRM, on_alarm)
+    signal.setitimer(signal.ITIMER_REAL, timeout_s)
+    try:
+        return run_path(fn, params, ctx)
+    except PathCut as e:  # raised after run_path's own handlers were left
+        return "cut", str(e)
+    finally:
+        signal.setitimer(signal.ITIMER_REAL, 0)
+        signal.signal(signal.SIGALRM, old)
+
+
+class timelimit:
+    """Concrete-mode watchdog: `with timelimit(ctx, 2.0, label): call()`; not returning in time is
+    reported as a violation with that label.  No effect in symbolic mode (the explorer's unwinding
+    bound and path timeout do that job there)."""
+
+    def __init__(self, ctx, seconds, label):
+        self.ctx, self.seconds, self.label = ctx, seconds, label
+
+    def __enter__(self):
+        import signal
+
+        if self.ctx.mode == "sym":
+            return self
+
+        def on_alarm(signum, frame):
+            raise TimeoutError("watchdog")
+
+        self.old = signal.signal(signal.SIGALRM, on_alarm)
+        signal.setitimer(signal.ITIMER_REAL, self.seconds)
+        return self
+
+    def __exit__(self, et, ev, tb):
+        import signal
+
+        if self.ctx.mode == "sym":
+            return False
+        signal.setitimer(signal.ITIMER_REAL, 0)
+        signal.signal(signal.SIGALRM, self.old)
+        if et is TimeoutError and str(ev) == "watchdog":
+            try:
+                self.ctx.fail(self.label, "did not return within %.1f s" % self.seconds)
+            except PathAbort:
+                pass
+            raise PathAbort()
+        return False
+
+
 def explore(fn, params, prefix=(), opts=None, budget_s=None, max_paths=None) -> Result:
     opts = dict(opts or {})
     opts["params"] = params
@@ -595,7 +656,23 @@ def explore(fn, params, prefix=(), opts=None, budget_s=None, max_paths=None) -> 
         trace = stack.pop()
         n0 = len(trace)
         ctx = Ctx("sym", trace, opts=opts, stats=res.stats)
-        outcome, info = run_path(fn, params, ctx)
+        outcome, info = _run_path_timed(fn, params, ctx, opts.get("path_timeout_s", 60))
+        if outcome == "cut" and opts.get("cut_is_violation") and info in ("max_decisions", "path-timeout"):
+            # NC harnesses: a path that needs more work than the budget allows is a hang candidate;
+            # the concrete replay (under a wall-clock cap) decides whether it is reported
+            try:
+                global _CUR
+                prev, _CUR = _CUR, ctx
+                try:
+                    ctx.decisions = 0
+                    ctx.max_decisions = 1 << 30
+                    ctx.pos = len(ctx.trace)
+                    ctx.model_valid = False
+                    ctx.fail("hang:work-out-of-proportion", "path cut by %s" % info)
+                finally:
+                    _CUR = prev
+            except (PathAbort, PathCut):
+                pass
         res.decisions += ctx.new_decisions
         res.max_depth = max(res.max_depth, ctx.decisions)
         res.reached |= ctx.reached
